@@ -10,6 +10,9 @@ set_option linter.unusedSimpArgs false
 namespace Hyp.Score
 open Hyp Hyp.SetOps Hyp.SetSpec Hyp.QP
 
+-- for any BM25 parameters (`Score.Bm25`: `K1`, `B` of the scoring loop, `K1` of `query_weight`)
+variable [Bm25 ℝ]
+
 mutual
 /-- no `GlobNode` anywhere in the tree (also not below NOT) -/
 def globFree : Tree → Bool
@@ -85,6 +88,8 @@ theorem bounded_mono {m : WMap ℝ} {B B' : ℝ} (h : Bounded m B) (hB : B ≤ B
   fun d v hv => ⟨(h d v hv).1, le_trans (h d v hv).2 hB⟩
 
 section
+-- the Okapi bound: parameters in the ranges of `Bm25Ok`
+variable [Bm25Ok]
 variable (s : State) (hs : Inv s) (lex : Lex)
 
 /-- the Okapi index over the reals, as `executeQuery` sees it -/
